@@ -50,6 +50,8 @@ func c39Prepare(c *core.Ctx) error {
 type c39Case struct {
 	Pkg    c39Pkg `json:"package"`
 	Output string `json:"written_go_file,omitempty"`
+	// the package was preprocessed as one of several arguments of one invocation
+	Inv *c39InvCase `json:"invocation,omitempty"`
 }
 
 // c39Preprocess runs gomacro's command on the package source and returns the written file ("" if none) and the messages printed.
@@ -288,21 +290,41 @@ func c39Run(c *core.Ctx) {
 		runtime.GOMAXPROCS(4)
 	}
 	c.Rule("every package of the corpus (C05 control-flow bodies, 3 per package in quick / all of them in thorough, + 4 of 36 declaration forms + 4 import shapes; + macro-using packages: 6 statement macros × 3-4 argument lists × 4 positions and a declaration-generating macro × 4 types, with hand-written expansion) is preprocessed by the real command in -m -w -f mode; " +
+		"invocation shapes: one file per invocation for the packages above, and groups g… preprocessed by ONE invocation with several arguments: {2 files, 3 files, directory of 2, directory of 3, file+directory, directory+file, directory+directory, macro source before a plain one, plain/macro/plain, directory(macro, plain)} × 4 rotations of import shapes / imported packages / declaration forms (consecutive sources always differ): the output for the k-th source must equal its reference whatever was processed before; " +
+		"force-evaluated chunks: sources whose ':' chunks are declarations AND statements/expressions {for, assignment, ++, +=, if/else, append, call of a ':func', range, switch, block, bare expression, := followed by use, tuple assignment} building preprocessing-time state read by a macro: every single chunk before the first use and between two uses, every sequence of two chunks (quick: 7-chunk core; thorough: full alphabet, and triples over the core); the reference expansion is computed by a model of the chunks; " +
 		"compared: package clause, import set, declaration kinds/names/order, each declaration in go/printer normal form, compilation of the output, Run() of output vs source in one compiled binary; " +
 		"non-trivial = distinct packages whose Run() result (equal on both sides) contains a trace of at least two events")
 	c.Assume("the Go toolchain installed in the image (go1.23.5, module mode go 1.21) is the reference for 'compiles' and for Run()",
 		"for sources using macros the reference is the hand-written expansion: a quasi-quoted block returned by a macro in statement position is spliced into the enclosing statement list",
-		"declarations are compared structurally modulo redundant parentheses, `else { if … }` vs `else if …`, and a block that is the only statement of a block (all three are the same program in Go)")
+		"declarations are compared structurally modulo redundant parentheses, `else { if … }` vs `else if …`, and a block that is the only statement of a block (all three are the same program in Go)",
+		"the files of a directory argument are processed in the order of their names (ioutil.ReadDir)")
 	pkgs := c39Corpus(c)
 	dir := c39Dir()
+	byName := map[string]*c39Pkg{}
+	job := 0
 	for i := range pkgs {
-		if !c.Mine(i) {
+		byName[pkgs[i].Name] = &pkgs[i]
+		if pkgs[i].InvName != "" {
+			continue // preprocessed with the other arguments of its invocation
+		}
+		job++
+		if !c.Mine(job) {
 			continue
 		}
 		if c.Expired() {
 			return
 		}
 		c39One(c, dir, &pkgs[i])
+	}
+	for i := range c39InvList {
+		job++
+		if !c.Mine(job) {
+			continue
+		}
+		if c.Expired() {
+			return
+		}
+		c39OneInvocation(c, dir, &c39InvList[i], byName, "")
 	}
 }
 
@@ -329,10 +351,20 @@ func c39One(c *core.Ctx, dir string, p *c39Pkg) string {
 }
 
 func (p *c39Pkg) sigClass() string {
+	cl := "macro-free"
 	if p.Macro {
-		return p.Class
+		cl = p.Class
+		if strings.HasPrefix(cl, "macro-forced-") {
+			// the chunk sequence is in the message: one mechanism, one signature per position
+			if i := strings.Index(cl, ":"); i > 0 {
+				cl = cl[:i]
+			}
+		}
 	}
-	return "macro-free"
+	if p.Inv != "" {
+		cl += "|" + p.Inv
+	}
+	return cl
 }
 
 // ---------------------------------------------------------------------------------------------
@@ -525,7 +557,7 @@ func c39Compare(c *core.Ctx, pairs []c39Pair, byName map[string]*c39Pkg, res map
 	outcomes := map[string]bool{}
 	for _, pr := range pairs {
 		p := byName[pr.name]
-		cas := c39Case{Pkg: *p, Output: pr.out}
+		cas := c39Case{Pkg: *p, Output: pr.out, Inv: c39InvCaseOf(p, byName)}
 		if msg := broken["orig/"+pr.name]; msg != "" {
 			panic(fmt.Sprintf("C39 generator: reference source of %s does not compile: %s\n%s", pr.name, msg, pr.ref))
 		}
@@ -559,7 +591,16 @@ func c39Replay(c *core.Ctx, raw json.RawMessage) {
 	dir := filepath.Join(core.VerifDir, "work", "C39-replay-"+strconv.Itoa(os.Getpid()))
 	defer os.RemoveAll(dir)
 	p := cas.Pkg
-	out := c39One(c, dir, &p)
+	var out string
+	if cas.Inv != nil {
+		byName := map[string]*c39Pkg{}
+		for i := range cas.Inv.Pkgs {
+			byName[cas.Inv.Pkgs[i].Name] = &cas.Inv.Pkgs[i]
+		}
+		out = c39OneInvocation(c, dir, &cas.Inv.Inv, byName, p.Name)[p.Name]
+	} else {
+		out = c39One(c, dir, &p)
+	}
 	if out == "" {
 		return
 	}
